@@ -90,6 +90,18 @@ def enumerate_cases(tier, shard=0, nshards=1):
         'A4': [['range', 'A1:A3'], ['range', 'A2:A3'], ['ref', 'A3']],
         'A3': [['ref', 'A2'], ['ref', 'A1']], 'A2': [['ref', 'A1']]},
         'consts': {'A1': 2}, 'eval': 'A4', 'n': 3})
+    # acyclic chains across sheets whose names are suffixes of one another
+    for depth in (1, 2, 3):
+        cells = {'XSheet1!A1': [['ref', 'A1']]}
+        consts = {'A%d' % (depth): 4}
+        for i in range(1, depth):
+            cells['A%d' % i] = [['ref', 'A%d' % (i + 1)]]
+        out.append({'k': 'graph', 'cells': cells, 'consts': consts,
+                    'eval': 'XSheet1!A1', 'n': depth + 1})
+    out.append({'k': 'graph', 'cells': {'XSheet1!A2': [['range', 'A1:A3']],
+                                        'A2': [['ref', 'XSheet1!A1']]},
+                'consts': {'XSheet1!A1': 2, 'A1': 3}, 'eval': 'XSheet1!A2',
+                'n': 4})
     for kind in ('unknown', 'pyerror'):
         out.append({'k': 'faildepth', 'kind': kind})
     for i, c in enumerate(out):
@@ -101,6 +113,30 @@ def _build(d):
     n = d.int(1, 8)
     cells = {}
     consts = {}
+    two = d.pick(3) == 0
+    if two:
+        # two sheets, one name a suffix of the other, same coordinates
+        pool = ['A%d' % i for i in range(1, 5)] + \
+            ['XSheet1!A%d' % i for i in range(1, 5)]
+        n = d.int(2, 8)
+        for me in pool[:n] if d.pick(2) else list(reversed(pool))[:n]:
+            if d.pick(5) == 0:
+                consts[me] = d.int(1, 9)
+                continue
+            refs = []
+            for _ in range(d.int(1, 3)):
+                if d.pick(5) == 0:
+                    refs.append(['range', d.choice(['A1:A2', 'XSheet1!A1:A3',
+                                                    'XSheet1!A2:A4',
+                                                    'A2:A4'])])
+                else:
+                    refs.append(['ref', d.choice(pool[:max(n, 2)])])
+            cells[me] = refs
+        if not cells:
+            cells['XSheet1!A1'] = [['ref', 'A1']]
+            consts.pop('XSheet1!A1', None)
+        return {'k': 'graph', 'cells': cells, 'consts': consts,
+                'eval': d.choice(sorted(cells)), 'n': n}
     for i in range(n):
         me = NAMES[i]
         if d.pick(5) == 0:
@@ -134,9 +170,18 @@ def budget(tier):
 def _targets(ref):
     if ref[0] == 'ref':
         return [ref[1]]
-    a, b = ref[1].split(':')
+    pre = ''
+    body = ref[1]
+    if '!' in body:
+        pre, body = body.split('!')
+        pre += '!'
+    a, b = body.split(':')
     ra, rb = int(a[1:]), int(b[1:])
-    return ['A%d' % r for r in range(min(ra, rb), max(ra, rb) + 1)]
+    return [pre + 'A%d' % r for r in range(min(ra, rb), max(ra, rb) + 1)]
+
+
+def _full(c):
+    return c if '!' in c else 'Sheet1!' + c
 
 
 class _Cyc(Exception):
@@ -188,10 +233,13 @@ def ref_value(cells, consts, start):
     return val(start)
 
 
-def render(refs):
+def render(refs, own='Sheet1'):
     parts = []
     for r in refs:
-        parts.append(r[1] if r[0] == 'ref' else 'SUM(%s)' % r[1])
+        t = r[1]
+        if '!' not in t and own != 'Sheet1':
+            t = 'Sheet1!' + t
+        parts.append(t if r[0] == 'ref' else 'SUM(%s)' % t)
     return '=' + '+'.join(parts) + '+1'
 
 
@@ -246,9 +294,9 @@ def judge(case):
     start = case['eval']
     d = {}
     for c, refs in cells.items():
-        d['Sheet1!' + c] = render(refs)
+        d[_full(c)] = render(refs, _full(c).split('!')[0])
     for c, v in consts.items():
-        d['Sheet1!' + c] = v
+        d[_full(c)] = v
     try:
         cyclic, sim_calls = simulate(cells, start)
     except OverflowError:
@@ -262,7 +310,7 @@ def judge(case):
         return res
     ncells = len(set(cells) | set(consts)) + 12
     outcome, detail, st = run_limited(
-        ev, 'Sheet1!' + start, 4 * sim_calls + 16, ncells + 2)
+        ev, _full(start), 4 * sim_calls + 16, ncells + 2)
     has_range = any(r[0] == 'range' for refs in cells.values() for r in refs)
     res.labels = ('cyclic' if cyclic else 'acyclic',
                   'range' if has_range else 'refs-only')
